@@ -7,15 +7,15 @@ from vlib.core import Infra
 import mockgen as G
 from props.c09 import enc, enc_int, BITS, SIGNED
 
-MC_QUICK = [("typed", dict(fns='"f"', pnames="", rets="RetsTyped", getters="GetTyped", maxexp=1, ns="1, 2", maxcalls=2)),
-            ("core", dict(maxcalls=2))]
+MC_QUICK = [("typed", dict(fns='"f"', pnames="", rets="RetsTyped", getters="GetTyped", maxexp=1, ns="1, 2", maxcalls=2))]
 MC_THOROUGH = [("typed", dict(fns='"f", "g"', pnames='"p"', rets="RetsTyped", getters="GetTyped", maxexp=1, ns="1, 2", maxcalls=3)),
+               ("typed2", dict(fns='"f"', pnames="", rets="RetsTyped", getters="GetTyped", maxexp=2, ns="1", maxcalls=3)),
                ("core", dict(maxcalls=3)),
-               ("outputs", dict(fns='"f"', onames='"x"', odata="Raw2", rets="Rets2", maxexp=2, ns="1", maxcalls=2))]
+               ("scopes", dict(scopes="ScopesGS", fns='"f"', ns="1", maxexp=2, maxcalls=3, rets="Rets2"))]
 GEN = [("bfs", 5, None, None, dict(fns='"f"', ns="1", maxexp=1, maxcalls=2, rets="RetsTyped", getters="GetTyped")),
-       ("sim", 14, 50, 600, dict(pnames='"p", "q"', vals="Vals3", rets="RetsTyped", getters="GetTyped", onames='"x"', odata="Raw2",
-                                 maxexp=3, ns="0, 1, 2", maxcalls=5)),
-       ("simscope", 16, 30, 400, dict(scopes="ScopesGS", fns='"f"', pnames='"p"', rets="RetsTyped", getters="GetTyped", maxexp=2, ns="1, 2",
+       ("sim", 14, 12, 500, dict(pnames='"p", "q"', vals="Vals3", rets="RetsTyped", getters="GetTyped", maxexp=3, ns="0, 1, 2", maxcalls=5)),
+       ("simout", 14, 8, 300, dict(fns='"f"', pnames='"p"', rets="Rets3", getters="GetTyped", onames='"x"', odata="Raw2", maxexp=3, ns="1, 2", maxcalls=4)),
+       ("simscope", 16, 10, 300, dict(scopes="ScopesGS", fns='"f"', pnames='"p"', rets="RetsTyped", getters="GetTyped", maxexp=2, ns="1, 2",
                                       maxcalls=5, late="TRUE", toggles="TRUE"))]
 
 LATTICE = [0, 1, 2, -1, -2, 2 ** 31 - 1, 2 ** 31, 2 ** 31 + 1, -2 ** 31, -2 ** 31 - 1, 2 ** 32 - 1, 2 ** 32, 2 ** 32 + 1, 2 ** 63 - 1, 2 ** 63,
@@ -153,6 +153,10 @@ def sweep(rng, quick):
             acts.append(enc_int(f[1], reinterpret(v + 1, f[1])))
         elif f[0] == "D":
             acts = [e.replace("dflt", "fin")]
+        else:
+            other = {"B|0": "B|1", "B|1": "B|0", "P|v|0": "P|v|1", "P|v|1": "P|c|1", "P|c|0": "P|c|2", "P|c|2": "P|v|2", "P|f|0": "P|f|1", "P|f|1": "P|f|2",
+                     "P|f|2": "P|f|0", "S|": "S|61", "S|6162": "S|6163", "M|": "M|00", "M|00ff10": "M|00ff", "O|TypeA|3": "O|TypeA|2", "O|TypeB|1": "O|TypeA|1"}
+            acts.append(other[e])
         for a in acts:
             execs.append([["expect", "", "f", 1, 0, 0, "p=" + e, "-", "-"], ["begin", "", "f"], ["param", "", "p", a], ["ret", "", "value", rng.choice(["call", "support"])], ["check"], ["end"]])
     # (2) return values: every return type x every getter
@@ -235,6 +239,12 @@ def older_family():
     return execs
 
 
+def before_any_call_family():
+    """a test that reads a return value through the support object before it made any actual call, after an earlier test made one"""
+    return [[["expect", "", "f", 1, 0, 0, "-", "-", enc_int("int", 5)], ["begin", "", "f"], ["ret", "", "int", "support"], ["check"], ["end"]],
+            [["ret", "", "int", "support"], ["ret", "", "value", "support"], ["end"]]]
+
+
 def key_fn(mode, family):
     def f(kind, ex, idx, observed):
         op = ex[idx][0] if idx < len(ex) else "?"
@@ -264,9 +274,10 @@ def run(ctx):
         return h
 
     def both(label, execs, meta, family=None):
+        before = len(ctx.violations) + len(ctx.known_hits)
         for mode in ("cpp", "c"):
             conform(ctx, "%s-%s" % (label, mode), execs, harness(mode, label), "Trace_Mock", tcfg, pcfg, key_fn(mode, family), tlc_timeout=1800,
-                    meta=dict(meta, mode=mode))
+                    meta=dict(meta, mode=mode), max_report=1 if family else 3)
         ctx.evaluations += 2 * sum(len(e) for e in execs)
         # the two interfaces must agree line by line on the projection
         la, lb = read_log(saved[(label, "cpp")]), read_log(saved[(label, "c")])
@@ -288,9 +299,9 @@ def run(ctx):
                             % (label, i + 1, k, ",".join(fields), json.dumps(projection(a))[:400], json.dumps(projection(b))[:400]),
                             {"meta": dict(meta, mode="c"), "label": label, "kind": "differ", "script": ["\t".join(map(str, l)) for l in ex], "failing_call": i + 1,
                              "cpp": a, "c": b})
-                if len(reported) >= 5:
+                if len(reported) >= (1 if family else 5):
                     break
-        if len(la) != len(lb):
+        if len(la) != len(lb) and len(ctx.violations) + len(ctx.known_hits) == before:
             raise Infra("logs of the two interfaces have different lengths (%d / %d) in %s" % (len(la), len(lb), label))
 
     if ctx.replay:
@@ -325,6 +336,8 @@ def run(ctx):
         e2, fam = G.assign_via(e, ctx.rng, True)
         (older if fam else main).append(e2)
     ctx.notes["generated"] = {"behaviours": ngen, "expressible_in_c": len(allx), "family_older_call": len(older)}
+    if quick and len(main) > 2500:
+        main = ctx.rng.sample(main, 2500)
     sw = sweep(ctx.rng, quick)
     ctx.sample({"source": "per-type sweep", "execution": ["\t".join(map(str, l)) for l in sw[len(sw) // 2]]})
     # ---- seeded random scenarios restricted to what both interfaces can express
@@ -337,6 +350,8 @@ def run(ctx):
     both("support-after-ignored", fam1, {"leg": "support-after-ignored"}, family="support-getter-after-ignored-call")
     fam2 = older_family() + older[: (10 if quick else 200)]
     both("older-call", fam2, {"leg": "older-call"}, family="support-getter-of-older-call")
+    fam3 = before_any_call_family()
+    both("before-any-call", fam3, {"leg": "before-any-call"}, family="support-getter-before-any-call")
     allx = main
     for e in allx + sw + rnd:
         ops = [l[0] for l in e]
@@ -357,6 +372,6 @@ def run(ctx):
              "fixture test; distinct = distinct scripts with at least one actual call or data read",
         distinct_nontrivial=len(distinct), exhaustive=False,
         assumptions=["scenarios expressible in both interfaces: no onObject (absent from the C interface), the sub-calls of one actual call are contiguous, "
-                     "a return value is read only after an actual call of the same test",
+                     "a return value is read only after an actual call of the same test (the three families that leave this frame are run and keyed separately)",
                      "failure texts are compared after replacing hexadecimal addresses",
                      "an object read back through the C tagged union carries no type name; only its content is compared"])
